@@ -158,6 +158,18 @@ def sheet_rows(ws):
     return heads, list(rows)[0]
 
 
+def rows_ok(ws, row, n):
+    """the data rows are filled by one loop of n iterations whose first iteration writes row 2"""
+    rng = ws.row_ranges.get(row)
+    if rng is None:
+        return False, "the data rows are not filled by a loop"
+    var, lo, hi = rng
+    first = ep.substitute(row, {var: lo})
+    count = hi - lo
+    ok = ep.equal(count, ep.sym(n))[0] and first.as_const() == 2
+    return ok, "%r rows starting at row %r" % (count, first)
+
+
 def grid_ok(row, value, cutoff, n):
     """row = i + 2 and value = i*cutoff/(n-1) for the symbolic loop index i"""
     i = row - ep.const(2)
@@ -176,6 +188,8 @@ def excel_pair(chk, P):
         raise AnalysisError("no 'Pair' sheet")
     heads, row = sheet_rows(ws)
     rv = I.num(ws.cells[(row, 1)])
+    okr, foundr = rows_ok(ws, row, "nr")
+    chk.ob("C19.X1", "nr data rows, the first in row 2", okr, site=site, found=foundr, expect="nr rows from row 2", key="C19.X1|rows")
     chk.ob("C19.X1", "first column header is 'r' and row i holds i*cutoff/(nr-1)", isinstance(heads.get(1), Const) and heads[1].v == "r"
            and grid_ok(row, rv, "cutoff", "nr"), site=site, found=(heads.get(1), rv), expect="r, i*cutoff/(nr-1)", key="C19.X1|grid")
     for label, fn in (("A-B", "phi_B_A"), ("O-U", "phi_O_U")):
@@ -213,6 +227,9 @@ def excel_eam(chk, P, rule="C19.X2"):
         chk.ob(rule, "%s: first column %r on the grid i*%s/(%s-1)" % (title, first, cut, n),
                isinstance(heads.get(1), Const) and heads[1].v == first and grid_ok(row, rv, cut, n), site=site, found=(heads.get(1), rv),
                expect="%s, i*%s/(%s-1)" % (first, cut, n), key=rule + "|%s|grid" % title)
+        okr, foundr = rows_ok(ws, row, n)
+        chk.ob(rule, "%s: %s data rows, the first in row 2" % (title, n), okr, site=site, found=foundr, expect="%s rows from row 2" % n,
+               key=rule + "|%s|rows" % title)
         for sp in ("Al", "Cu"):
             cols = [c for c, v in heads.items() if isinstance(v, Const) and v.v == sp]
             ok = len(cols) == 1
